@@ -451,8 +451,23 @@ func (c *clientV2) tryUpdateReadyState() {
 
 func (c *clientV2) FinishedMessage() {
 	atomic.AddUint64(&c.FinishCount, 1)
-	atomic.AddInt64(&c.InFlightCount, -1)
+	c.decrInFlightCount()
 	c.tryUpdateReadyState()
+}
+
+// decrInFlightCount decrements InFlightCount but never below zero: the
+// channel may have been emptied (which resets the count, see Empty) after the
+// message left the in-flight set and before this client was told about it
+func (c *clientV2) decrInFlightCount() {
+	for {
+		n := atomic.LoadInt64(&c.InFlightCount)
+		if n <= 0 {
+			return
+		}
+		if atomic.CompareAndSwapInt64(&c.InFlightCount, n, n-1) {
+			return
+		}
+	}
 }
 
 func (c *clientV2) Empty() {
@@ -472,13 +487,13 @@ func (c *clientV2) PublishedMessage(topic string, count uint64) {
 }
 
 func (c *clientV2) TimedOutMessage() {
-	atomic.AddInt64(&c.InFlightCount, -1)
+	c.decrInFlightCount()
 	c.tryUpdateReadyState()
 }
 
 func (c *clientV2) RequeuedMessage() {
 	atomic.AddUint64(&c.RequeueCount, 1)
-	atomic.AddInt64(&c.InFlightCount, -1)
+	c.decrInFlightCount()
 	c.tryUpdateReadyState()
 }
 
